@@ -2,8 +2,9 @@
 (***************************************************************************)
 (* Bounded instances of HtmlAttrs.  Cases are grown entry by entry, every  *)
 (* reachable state IS a case; TLC checks the specification's own laws on   *)
-(* each and exports it with Expected(c) and the prediction of the named    *)
-(* deviations (spec -> code replay).                                       *)
+(* each and exports it with Expected(c) (spec -> code replay).  Results    *)
+(* that do not conform go back to TLC (Trace_C13), which decides whether a *)
+(* named deviation predicts them.                                          *)
 (*   Profile "values": one name, every combination of default / attrs /    *)
 (*       <= MaxKw keywords over the full value representatives.            *)
 (*   Profile "forms":  NNames names, small values, every way of writing    *)
@@ -14,7 +15,7 @@
 (***************************************************************************)
 EXTENDS HtmlAttrs, TLC, Json, IOUtils
 
-CONSTANTS Profile, MaxKw, MaxEntries, NNames
+CONSTANTS Profile, MaxKw, MaxEntries, NNames, Split, Splits
 
 S(x)    == [t |-> "str", s |-> x]
 Safe(x) == [t |-> "safe", s |-> x]
@@ -50,15 +51,17 @@ KVals == CASE Profile = "values" -> KwFull [] Profile = "forms" -> KwSmall [] OT
 \* fa / fd: how attrs / defaults are written.  "pos" positional, "kw" attrs=var before the other
 \* keywords, "kwlast" after them, "agg" attrs:name=var per entry, "spread" inside a ...dict,
 \* "posnone" positional variable holding None, "absent" not written (then no entries).
-FormPairs ==
+FormPairsAll ==
   IF Profile = "forms"
-  THEN {<<"pos", "pos">>, <<"pos", "absent">>, <<"pos", "kw">>, <<"pos", "agg">>, <<"kw", "kw">>,
-        <<"kwlast", "kw">>, <<"kw", "kwlast">>, <<"absent", "kw">>, <<"agg", "agg">>, <<"agg", "kw">>,
-        <<"kw", "agg">>, <<"spread", "spread">>, <<"spread", "kw">>, <<"posnone", "pos">>,
-        <<"absent", "absent">>, <<"absent", "agg">>}
-  ELSE IF Profile = "names" THEN {<<"pos", "pos">>, <<"kw", "kw">>, <<"spread", "spread">>}
-  ELSE IF Profile = "repeat" THEN {<<"pos", "absent">>, <<"kwlast", "absent">>}
-  ELSE {<<"pos", "pos">>}
+  THEN << <<"pos", "pos">>, <<"pos", "absent">>, <<"pos", "kw">>, <<"pos", "agg">>, <<"kw", "kw">>,
+          <<"kwlast", "kw">>, <<"kw", "kwlast">>, <<"absent", "kw">>, <<"agg", "agg">>, <<"agg", "kw">>,
+          <<"kw", "agg">>, <<"spread", "spread">>, <<"spread", "kw">>, <<"posnone", "pos">>,
+          <<"absent", "absent">>, <<"absent", "agg">> >>
+  ELSE IF Profile = "names" THEN << <<"pos", "pos">>, <<"kw", "kw">>, <<"spread", "spread">> >>
+  ELSE IF Profile = "repeat" THEN << <<"pos", "absent">>, <<"kwlast", "absent">> >>
+  ELSE << <<"pos", "pos">> >>
+\* an instance may be split over several TLC runs: run Split of Splits takes every Splits-th pair
+FormPairs == {FormPairsAll[i] : i \in {j \in 1..Len(FormPairsAll) : j % Splits = Split}}
 Vias == IF Profile = "forms" THEN {"var", "lit", "spread"} ELSE {"var"}
 \* a keyword value may be written as a template literal only if that does not change its meaning
 LitOk(v) == v.t \in {"num", "true", "none"} \/ (v.t = "str" /\ v.s # "" /\ ~HasAny(v.s, Special \cup {"{", "%", "\\"}))
@@ -124,7 +127,6 @@ SetToSeq(s) == LET RECURSIVE R(_)
                    R(x) == IF x = {} THEN <<>> ELSE LET e == CHOOSE e \in x : TRUE IN <<e>> \o R(x \ {e})
                IN R(s)
 ItemJ(it) == [n |-> it.n, cls |-> it.cls, kind |-> it.kind, vals |-> SetToSeq(it.vals)]
-DevJ(d) == [d EXCEPT !.items = [i \in 1..Len(d.items) |-> ItemJ(d.items[i])], !.errok = SetToSeq(d.errok)]
 \* one evaluation of Items(c) per case: the round-trip law, then the export
 CaseOK ==
   LET its == Items(c) IN
@@ -132,7 +134,7 @@ CaseOK ==
   /\ Serialize(ToJson([profile |-> Profile, defaults |-> c.defaults, attrs |-> c.attrs, kws |-> c.kws,
                        vias |-> vias, fa |-> fa, fd |-> fd,
                        items |-> [i \in 1..Len(its) |-> ItemJ(its[i])],
-                       err |-> ErrOk(its), dev |-> DevJ(DevAttrs(c))]) \o "\n",
+                       err |-> ErrOk(its)]) \o "\n",
                IOEnv.OUT, [format |-> "TXT", charset |-> "UTF-8",
                            openOptions |-> <<"WRITE", "CREATE", "APPEND">>]).exitValue = 0
 =============================================================================
